@@ -322,6 +322,23 @@ end Once
 namespace Once
 variable {σ : Type}
 
+/-- `run(until=number)`: a fresh pre-triggered sentinel, pushed URGENT for the absolute time `at_`, with
+`StopSimulation.callback` subscribed — the invariant is kept (the set-up of `runUntilTime`) -/
+theorem Inv0.until_time {lv strict : Bool} {s : KState ℚ σ} (hi : Inv0 lv s strict) (at_ : ℚ) :
+    Inv0 lv (((s.newEv { kind := .sentinel, cbs := some [], out := some (.ok .none) }).1.scheduleAt s.events.size URGENT at_).addCb
+      s.events.size .stop) strict := by
+  have h1 : Inv (g0 lv strict) (s.newEv { kind := .sentinel, cbs := some [], out := some (.ok .none) }).1 :=
+    Inv.newEv hi _ [] rfl (fun p hm => by simp at hm) (fun iv hm => by simp at hm) (fun c hm => by simp at hm)
+  have h2 : Inv (g0 lv strict) ((s.newEv { kind := .sentinel, cbs := some [], out := some (.ok .none) }).1.scheduleAt
+      s.events.size URGENT at_) := by
+    refine ⟨h1.c.sched { time := at_, prio := URGENT, eid := s.eid, ev := s.events.size } rfl rfl (fun _ => rfl) (fun _ => rfl)
+      ?_ ?_ ?_, h1.q.keep (fun _ => rfl) (fun _ => rfl) (fun _ h _ => ⟨rfl, h⟩), ⟨h1.l.live⟩⟩
+    · intro b hb
+      exact Nat.ne_of_lt (hi.c.agenda_lt b hb)
+    · rw [KState.ev_newEv, if_pos rfl]; simp
+    · rw [KState.ev_newEv, if_pos rfl]; simp
+  exact Inv.addCb h2 _ .stop (fun p h => by cases h) (fun iv h => by cases h) (fun c h => by cases h)
+
 /-! ## processed for good -/
 
 /-- the step that pops `q` leaves its event processed -/
